@@ -21,13 +21,14 @@ const (
 func c15Total() int { return c15Src * c15Dst * c15Caps * 2 * c15Nil * len(c15Forms) }
 
 type c15Case struct {
-	SrcLen  int    `json:"src_len"`
-	DstLen  int    `json:"dst_len"`
-	Cap     int    `json:"dst_cap"` // 0 = none
-	SrcFifo bool   `json:"src_fifo"`
-	NilPat  int    `json:"nil_pattern"` // 0 none, 1 one nil, 2 two nils
-	Form    string `json:"dst_form"`
-	Kinds   string `json:"kinds"`
+	SrcLen     int    `json:"src_len"`
+	DstLen     int    `json:"dst_len"`
+	Cap        int    `json:"dst_cap"` // 0 = none
+	SrcFifo    bool   `json:"src_fifo"`
+	NilPat     int    `json:"nil_pattern"` // 0 none, 1 one nil, 2 two nils
+	Form       string `json:"dst_form"`
+	Kinds      string `json:"kinds"`
+	DstHistory bool   `json:"dst_with_history,omitempty"`
 }
 
 func c15Decode(idx int) c15Case {
@@ -98,8 +99,21 @@ func c15Run(c *core.Ctx, idx int) {
 		}
 	}
 	dst := NewStack(dk, k.Cap)
-	for i := 0; i < k.DstLen; i++ {
-		dst.Push(next())
+	if (k.Cap == 0 || k.DstLen < k.Cap) && r.Chance(1, 4) {
+		// a destination with a history: its backing array has been rebuilt and over-grown by Remove/Insert/Push,
+		// so the slice's builtin capacity no longer equals the configured one
+		k.DstHistory = true
+		dst.Push("h0")
+		for i := 0; i < k.DstLen; i++ {
+			dst.Push(next())
+		}
+		dst.Remove(0)
+		dst.Push("h1")
+		dst.Pop()
+	} else {
+		for i := 0; i < k.DstLen; i++ {
+			dst.Push(next())
+		}
 	}
 	var arg any
 	inert := false // destination that must refuse
@@ -199,7 +213,7 @@ func init() {
 		Cases: func(string) int { return c15Total() },
 		Run:   c15Run,
 		Rule: "exhaustive product: source length 0..6 x destination length 0..6 x destination capacity {none,1..8} x source LIFO/FIFO x {0,1,2} nil elements in the source x destination form " +
-			"{native, alias value, pointer to alias, pointer to native, read-only, zero Stack, int, nil, zero alias, nil pointer to alias, no-nesting destination with a Stack among the source elements} (combinations with more elements than capacity skipped), random kinds; " +
+			"{native, alias value, pointer to alias, pointer to native, read-only, zero Stack, int, nil, zero alias, nil pointer to alias, no-nesting destination with a Stack among the source elements} (combinations with more elements than capacity skipped), random kinds; a quarter of the destinations has a history (Push, Remove, Push, Pop) so that the builtin slice capacity differs from the configured one; " +
 			"recursive VerifDump snapshots of source and destination before/after. non-trivial = source length >= 2 and a live destination that is either partly filled (0 < free < len(src)) or non-empty with room; distinct = case tuple.",
 		Assumptions: []string{
 			"a false result although everything would fit is counted (outcome.refused-with-room) but not judged: the statement only forbids false success, partial copies under capacity shortage, and changes to inert destinations or to the source",
